@@ -98,6 +98,7 @@ package parser
 //@   ensures  "grows": (&ial.pendingTokens).ndeq == old((&ial.pendingTokens).ndeq) && len(ial.hist()) > len(old(ial.hist())) && ial.bufOK()
 //
 //@ func (ial *IndentAwareLexer) NextToken() (res antlr.Token)
+//@   unreachable "return nil"   // checkNextToken always queues at least one token
 //@   requires ial.wf()
 //@   modifies ial.hitEOF, fields(&ial.pendingTokens), elems((&ial.pendingTokens).base), *(&ial.indents), elems(*(&ial.indents))
 //@   ensures  "wf": ial.wf()
